@@ -4,6 +4,7 @@ import VyxalModel.Model.Number
 import VyxalModel.Model.Strings
 import VyxalModel.Model.Transpile
 import VyxalModel.Model.Placed
+import VyxalModel.Model.LexerV
 import VyxalModel.Lemmas.TruncationAt
 import VyxalModel.Model.WFPy
 import VyxalModel.Model.DictCompress
@@ -358,6 +359,7 @@ def elemCmd (arg : String) : String :=
 def answer (cmd arg : String) : String :=
   match cmd with
   | "tok" => showToks (tokenise (parseCps arg))
+  | "tokV" => showToks (tokeniseV (parseCps arg))
   | "parse" =>
     let toks := if arg.isEmpty then [] else (arg.splitOn " ").map parseTokStr
     (match parseTop toks with
